@@ -263,10 +263,36 @@ func genMutations(w *bufio.Writer, r *hx.Rng, tier string) {
 	}
 }
 
+// genUtf8Digests: UTF-8 scripts with two-, three- and four-byte characters (with and without UTF-8 BOM, CRLF / LF,
+// unsigned and signed); the digest op compares the hash of the model's stream with DigestPowershell's, and the predicate
+// evaluates Relic.Props.C02.ps_hashed_is_utf16 on the implementation's imprint (stream = UTF-16LE of the text's characters)
+func genUtf8Digests(w *bufio.Writer, r *hx.Rng, tier string) {
+	n := 90
+	if tier == "thorough" {
+		n = 1500
+	}
+	for i := 0; i < n; i++ {
+		p := RandParams(r)
+		p.Utf16 = false
+		p.NoBom = false
+		p.NonASCII = 1 + i%3
+		p.Utf8Bom = i%5 == 0
+		if p.Lines < 2 {
+			p.Lines = 2 + i%4
+		}
+		f := Build(r, p)
+		if i%3 == 1 {
+			f = FakeSigned(f, p.Style, r.Bytes(r.Pick(9, 48, 100)))
+		}
+		fmt.Fprintf(w, "PS digest %d %s\n", p.Style, hx.Hex(f))
+	}
+}
+
 func Gen(w *bufio.Writer, seed uint64, tier string, prop string) {
 	r := hx.NewRng(seed ^ 0x5053)
 	if prop == "C02" {
 		genMutations(w, r, tier)
+		genUtf8Digests(w, r, tier)
 		return
 	}
 	n := 260
